@@ -111,3 +111,11 @@ def c18(ctx):
     ctx.outside += ['panics with concurrent readers/writers (sequential fault injection only)', 'Clone of a custom pointee']
     for e in ['c18_rcu', 'c18_store_drop', 'c18_cas_reject', 'c18_map']:
         seq_run(ctx, e, flavor='unw')
+
+
+@prop('C20')
+def c20(ctx):
+    ctx.bounds.update({'values': 'symbolic u64 / bool scalars, a 2-field struct, Option (Some/None)', 'strategies': ['DefaultStrategy']})
+    ctx.outside += ['strings, sequences, maps and nested collections as pointee values', 'RwLock strategy for Deserialize (needs Default; same generic code)']
+    seq_run(ctx, 'c20_ser', features=('serde',))
+    seq_run(ctx, 'c20_de', features=('serde',))
